@@ -47,7 +47,7 @@ TRUSTED = ["xr.apply_ufunc(vectorize=True) over the non-spatial dims is modelled
 
 # counters every complete run (quick or thorough, any seed) must have incremented: one per predicate family / input class
 EXPECT_COUNTS = [
-    "single:agree", "single:known", "single:err", "geometry",
+    "single:agree", "single:known", "single:err", "geometry", "input_unchanged",
     "op:gt", "op:ge", "op:lt", "op:le", "with_nan", "with_inf", "threshold:infinite", "dtype:int/int", "dtype:int/float", "dtype:uint",
     "tie:single:operator=omitted", "tie:single:operator=None", "tie:single:operator=explicit",
     "tie:multi:operator=omitted", "tie:multi:operator=None", "tie:multi:operator=explicit",
@@ -291,6 +291,19 @@ def events_of(a, th, op):
         return np_op(op)(np.asarray(a), float(th)).astype(np.int64)
 
 
+def snapshot(*arrays):
+    return [a.copy(deep=True) if isinstance(a, xr.DataArray) else np.array(a, copy=True) for a in arrays]
+
+
+def inputs_unchanged(ctx, what, desc, arrays, before):
+    """a call must not write into the arrays it is given"""
+    ctx.count("input_unchanged")
+    for name, a, b in zip(("fcst", "obs"), arrays, before):
+        av, bv = (a.values, b.values) if isinstance(a, xr.DataArray) else (np.asarray(a), b)
+        if av.dtype != bv.dtype or av.shape != bv.shape or not np.array_equal(av, bv, equal_nan=av.dtype.kind == "f"):
+            ctx.violation(what + " modifies the %s array it is given" % name, desc, bv.tolist(), av.tolist())
+
+
 def has_tie(f, o, th):
     """some cell of fcst or obs is exactly equal to the threshold (an event for >= / <=, not for > / <)"""
     with np.errstate(invalid="ignore"):
@@ -308,8 +321,9 @@ def single_case(ctx, S, f, o, th, op, wh, ww, pad, sample=False, spelling=None):
     sp = spelling if spelling is not None else rand_spelling(ctx.rng, "fss_2d_single_field", op, pad)
     kw = dict(event_threshold=float(th), window_size=(wh, ww), **spelled_kwargs(sp, op, pad))
     count_spelling(ctx, sp)
+    before = snapshot(f, o)
     impl = core.call_impl(S.spatial.fss_2d_single_field, f, o, **kw)
-    sat, spec = model_single(ctx, f, o, th, op, wh, ww, pad)
+    sat, spec = model_single(ctx, before[0], before[1], th, op, wh, ww, pad)
     desc = {"fn": "fss_2d_single_field", "fcst": np.asarray(f).tolist(), "obs": np.asarray(o).tolist(),
             "fcst_dtype": str(np.asarray(f).dtype), "obs_dtype": str(np.asarray(o).dtype), "event_threshold": th,
             "operator": op, "window_size": [wh, ww], "zero_padding": pad, "spelling": sp}
@@ -318,6 +332,7 @@ def single_case(ctx, S, f, o, th, op, wh, ww, pad, sample=False, spelling=None):
     ctx.case(desc, events)
     if sample:
         ctx.sample(desc)
+    inputs_unchanged(ctx, "fss_2d_single_field", desc, (f, o), before)
     if impl[0] == "ok" and has_tie(f, o, th):
         ctx.count("tie:single:operator=" + sp.get("threshold_operator", "explicit"))
     verdict = judge_scalar(ctx, "fss_2d_single_field", desc, impl, sat, spec, pad, wh, ww)
@@ -467,12 +482,15 @@ def thresholds_and_nan(ctx, S, n):
                 ctx.violation("FSS outside [0,1]", {"fcst": f.tolist(), "obs": o.tolist()}, "[0,1]", float(impl[1]))
 
 
+MALFORMED_KINDS = ["shape", "wbig", "wzero", "wneg", "badop", "compute_method"]
+
+
 def malformed_single(ctx, S, n):
     rng = ctx.rng
-    for _ in range(n):
+    for idx in range(n):
         H, W = rng.randint(1, 4), rng.randint(1, 4)
         f = rand_binary(rng, H, W)
-        kind = rng.choice(["shape", "wbig", "wzero", "wneg", "badop", "compute_method"])
+        kind = MALFORMED_KINDS[idx % len(MALFORMED_KINDS)]           # every kind in every run
         o = rand_binary(rng, H, W)
         wh, ww = rng.randint(1, H), rng.randint(1, W)
         if kind == "compute_method":
@@ -654,7 +672,11 @@ def multi_cases(ctx, S, n):
         H, W = fcst.sizes.get(sp[0], 1), fcst.sizes.get(sp[1], 1)
         if wh > H or ww > W:
             ctx.count("multi:window_too_big")
+        before = snapshot(fcst, obs)
         impl = core.call_impl(S.spatial.fss_2d, fcst, obs, **kw)
+        inputs_unchanged(ctx, "fss_2d", {"fn": "fss_2d", "fcst": gens.da_repr(before[0]), "obs": gens.da_repr(before[1]), "window_size": [wh, ww],
+                                         "zero_padding": pad}, (fcst, obs), before)
+        fcst, obs = before
         mf, mo = model_view(fcst, obs)
         m = ctx.model("c16_fss2d", enc_list([enc_arr(mf), enc_arr(mo), enc_num(th), enc_str(op), str(wh), str(ww),
                                              enc_list([enc_str(s) for s in sp]), enc_bool(pad), enc_dimspec(rd), enc_dimspec(pd)]))
@@ -695,7 +717,11 @@ def binary_cases(ctx, S, n):
         kw = dict(window_size=(wh, ww), spatial_dims=("x", "y"), **spelled_kwargs(spl, "gt", pad, rd, pd, check))
         count_spelling(ctx, spl)
         ctx.count("binary:storage=" + store)
+        before = snapshot(fb, ob)
         impl = core.call_impl(S.spatial.fss_2d_binary, fb, ob, **kw)
+        inputs_unchanged(ctx, "fss_2d_binary", {"fn": "fss_2d_binary", "fcst": gens.da_repr(fcst), "obs": gens.da_repr(obs), "storage": store,
+                                                "window_size": [wh, ww], "zero_padding": pad}, (fb, ob), before)
+        fb, ob = before
         mf, mo = model_view(fcst, obs)
         m = None if no_model(ctx) else ctx.model("c16_binary", enc_list([enc_arr(mf), enc_arr(mo), enc_bool(as_bool), enc_bool(check), str(wh), str(ww),
                                                                        enc_list([enc_str("x"), enc_str("y")]), enc_bool(pad), enc_dimspec(rd), enc_dimspec(pd)]))
